@@ -112,6 +112,8 @@ var c13HeadFaults = [][2]string{
 	{"{{ 1.nope(1,", " 2) }}"},
 	{"{{ \"s\".at(\"x\",", " 1) }}"},
 	{"{{ [1].slice(\"a\",", " 2) }}"},
+	{"{{ {~: 1,", " b: 2} }}"}, // an illegal character where a name is taken: reported on its own line
+	{"@each(` in [1]", ")x@end"},
 }
 
 // HarnessC13Head: the reported line of a failing call is the line of the function name, wherever its argument
